@@ -9,7 +9,9 @@ from purecheck import PureCheck
 ALPHA = (97, 98, 32, 10, 44)  # a b space newline comma
 ATTS = [fmtlib.PLAIN, fmtlib.RED, fmtlib.BOLD_ON_BLUE]
 SEPS = [",", " ", "a", "ab", ", ", "\n", "b,", "aa"]
-REGEXES = [r",+", r"\s+", r"[ab]", r"a|,", r"b\n?"]
+REGEXES = [r",+", r"\s+", r"[ab]", r"a|,", r"b\n?",
+           # separators that can match zero characters (look-around, word boundary, optional, starred): re.split cuts there too
+           r"(?=b)", r"\b", r",?", r" *", r"(?<=a)", r""]
 DELEGATED = [
     ("upper", ()), ("lower", ()), ("title", ()), ("swapcase", ()), ("capitalize", ()),
     ("strip", ()), ("lstrip", ()), ("rstrip", ()), ("strip", ("a ",)), ("rstrip", (",\n",)),
@@ -30,7 +32,7 @@ class C15(PureCheck):
     warm_every = 3
     rule = ("layouts with >=1 run: all single-run layouts of length 0..2 + sampled 2- and 3-run layouts (quick) / all <=2-run "
             "layouts + sampled 3-run (thorough) over {a, b, space, newline, comma} x {plain, red, bold+on_blue}; split with 8 "
-            "separators (present/absent/adjacent/at the ends) and 5 group-free regexes, 5 separators with regex metacharacters used both literally and as regexes, splitlines with keepends False/True, "
+            "separators (present/absent/adjacent/at the ends) and 11 group-free regexes (6 of them able to match zero characters: look-ahead/behind, word boundary, optional, starred, empty), 5 separators with regex metacharacters used both literally and as regexes, splitlines with keepends False/True, "
             "ljust/rjust with widths below/at/above the length with and without fill, 36 delegated str method calls; Python's "
             "own answer on the plain text is logged with each event as the reference. distinct_nontrivial = distinct "
             "(layout, method, args) with a formatted or multi-run operand")
